@@ -39,6 +39,10 @@ def cfgOf (c : Cfg) : TCfg where
     | .creating d => d | .writing d => d | .accessing d => d | .custom => c.refCreate.get k | .none => 0
   refUpdate := fun k _ cur => match c.refresh with
     | .creating _ => cur | .writing d => d | .accessing d => d | .custom => c.refUpdate.get k | .none => 0
+  refReload := fun k _ cur => match c.refresh with
+    | .creating _ => cur | .writing d => d | .accessing d => d | .custom => c.refReload.get k | .none => 0
+  refFail := fun k _ cur => match c.refresh with
+    | .custom => c.refFail.get k | _ => cur
 
 /-- built-in durations are positive (the constructors of the library reject others) -/
 def KindOk : Kind → Prop
@@ -129,7 +133,7 @@ theorem ref_refines (c : Cfg) (k v : Nat) (n : TNode) (prev : Option TNode) (now
     (hnow : -4611686018427387904 < now ∧ now < 4611686018427387904)
     (hn : n.key = k ∧ n.ref = (newNode (cfgOf c) k v prev).ref)
     (hprev : ∀ o, prev = some o → -4611686018427387904 ≤ o.ref ∧ o.ref ≤ maxI64) (hk : KindOk c.refresh) :
-    (calcRefreshableAt (cfgOf c) n prev now).ref = Spec.refAfterWrite c now k (prev.map absN) .normal := by
+    (calcRefreshableAt (cfgOf c) n prev .plain now).ref = Spec.refAfterWrite c now k (prev.map absN) .normal := by
   obtain ⟨e, he⟩ : ∃ e, c.refresh = e := ⟨_, rfl⟩
   obtain ⟨nk, nv, nw, ne, nr⟩ := n
   obtain ⟨h1, h2⟩ := hn
@@ -201,9 +205,9 @@ theorem calcExp_fields (c : TCfg) (n : TNode) (p : Option TNode) (now : Int) :
   repeat' split
   all_goals exact ⟨rfl, rfl, rfl, rfl⟩
 
-theorem calcRef_fields (c : TCfg) (n : TNode) (p : Option TNode) (now : Int) :
-    (calcRefreshableAt c n p now).key = n.key ∧ (calcRefreshableAt c n p now).val = n.val ∧
-    (calcRefreshableAt c n p now).weight = n.weight ∧ (calcRefreshableAt c n p now).exp = n.exp := by
+theorem calcRef_fields (c : TCfg) (n : TNode) (p : Option TNode) (kd : RefKind) (now : Int) :
+    (calcRefreshableAt c n p kd now).key = n.key ∧ (calcRefreshableAt c n p kd now).val = n.val ∧
+    (calcRefreshableAt c n p kd now).weight = n.weight ∧ (calcRefreshableAt c n p kd now).exp = n.exp := by
   unfold calcRefreshableAt
   dsimp only
   repeat' split
@@ -213,10 +217,6 @@ theorem calcRef_fields (c : TCfg) (n : TNode) (p : Option TNode) (now : Int) :
     deadline not absurdly far in the past -/
 def NodeOk (k : Nat) (o : TNode) : Prop :=
   o.key = k ∧ o.exp ≤ maxI64 ∧ -4611686018427387904 ≤ o.ref ∧ o.ref ≤ maxI64
-
-/-- the visible predecessor, on both sides -/
-def visiblePrev (old : Option TNode) (now : Int) : Option TNode :=
-  match old with | some o => if hasExpired o now then none else some o | none => none
 
 theorem visiblePrev_live (s : Spec.State) (t : Tbl) (k : Nat) (hs : s.m = absT t) :
     (visiblePrev (lookup t k) s.now).map absN = s.live k := by
@@ -268,9 +268,9 @@ theorem atomicSet_entry (c : Cfg) (s : Spec.State) (t : Tbl) (k v : Nat) (hs : s
       ⟨(calcExp_fields _ _ _ _).1, (calcExp_fields _ _ _ _).2.2.2⟩ hprev2 hk2
   rw [visiblePrev_live s t k hs] at hE hR
   show absN (calcRefreshableAt (cfgOf c) (calcExpiresAtAfterWrite (cfgOf c) (newNode (cfgOf c) k v (visiblePrev (lookup t k) s.now))
-      (visiblePrev (lookup t k) s.now) s.now) (visiblePrev (lookup t k) s.now) s.now) = _
+      (visiblePrev (lookup t k) s.now) s.now) (visiblePrev (lookup t k) s.now) .plain s.now) = _
   unfold absN
-  rw [(calcRef_fields _ _ _ _).2.1, (calcRef_fields _ _ _ _).2.2.1, (calcRef_fields _ _ _ _).2.2.2,
+  rw [(calcRef_fields _ _ _ _ _).2.1, (calcRef_fields _ _ _ _ _).2.2.1, (calcRef_fields _ _ _ _ _).2.2.2,
     (calcExp_fields _ _ _ _).2.1, (calcExp_fields _ _ _ _).2.2.1, hE, hR]
   rfl
 
@@ -623,5 +623,240 @@ theorem computeStep_refines (c : Cfg) (s : Spec.State) (t : Tbl) (k : Nat) (act 
           unfold Spec.computeStep; simp only [hlive, Option.filter, hlv, hphys, ↓reduceIte, Bool.false_eq_true]
         rw [himpl, hspec]
         exact ⟨hinv.1, rfl, hinv.2.2⟩
+
+/-! ### completion of a load (afterDeleteCall) -/
+
+theorem ref_refines_reload (c : Cfg) (k v : Nat) (n : TNode) (o : TNode) (now : Int)
+    (hnow : -4611686018427387904 < now ∧ now < 4611686018427387904)
+    (hn : n.key = k ∧ n.ref = (newNode (cfgOf c) k v (some o)).ref)
+    (hprev : -4611686018427387904 ≤ o.ref ∧ o.ref ≤ maxI64) (hk : KindOk c.refresh) :
+    (calcRefreshableAt (cfgOf c) n (some o) .reload now).ref = Spec.refAfterWrite c now k (some (absN o)) .reload := by
+  obtain ⟨e, he⟩ : ∃ e, c.refresh = e := ⟨_, rfl⟩
+  obtain ⟨nk, nv, nw, ne, nr⟩ := n
+  obtain ⟨h1, h2⟩ := hn
+  simp only at h1 h2
+  subst h1
+  subst h2
+  unfold calcRefreshableAt Spec.refAfterWrite
+  simp only [newNode, cfgOf, Cfg.withRefresh]
+  rw [he] at hk
+  simp only [he]
+  obtain ⟨hlow, hmax⟩ := hprev
+  cases e with
+  | none => simp
+  | creating d => simp [absN]
+  | writing d | accessing d =>
+    have hd : 0 < d := hk
+    have := step_eq o.ref now d hnow hmax hlow
+    simp only [hd, ↓reduceIte, true_and, ite_not] at this
+    simp [apply_ite TNode.ref, hd, this]
+  | custom =>
+    have := step_eq o.ref now (c.refReload.get nk) hnow hmax hlow
+    simp [apply_ite TNode.ref, this, absN]
+
+/-- the node a load's installation builds (atomicSet with the call in hand) -/
+theorem atomicSet_entry_call (c : Cfg) (s : Spec.State) (t : Tbl) (k v : Nat) (isRefresh : Bool) (hs : s.m = absT t)
+    (hnow : -4611686018427387904 < s.now ∧ s.now < 4611686018427387904)
+    (hwf : ∀ o, lookup t k = some o → NodeOk k o) (hk1 : KindOk c.expiry) (hk2 : KindOk c.refresh) :
+    absN (atomicSet (cfgOf c) k v (lookup t k) s.now (if isRefresh then .reload else .plain)).1 =
+      { val := v, weight := c.weigh k v, exp := Spec.expAfterWrite c s.now k (s.live k),
+        ref := Spec.refAfterWrite c s.now k (s.live k)
+          (if isRefresh && (s.live k).isSome then Spec.WriteKind.reload else Spec.WriteKind.normal) } := by
+  cases isRefresh with
+  | false => simpa using atomicSet_entry c s t k v hs hnow hwf hk1 hk2
+  | true =>
+    have hplain := atomicSet_entry c s t k v hs hnow hwf hk1 hk2
+    have hvl := visiblePrev_live s t k hs
+    cases hp : visiblePrev (lookup t k) s.now with
+    | none =>
+      -- no visible predecessor: calcRefreshableAt asks RefreshAfterCreate whatever the call is
+      rw [hp] at hvl
+      have hl : s.live k = none := by simpa using hvl.symm
+      have hsame : atomicSet (cfgOf c) k v (lookup t k) s.now .reload = atomicSet (cfgOf c) k v (lookup t k) s.now .plain := by
+        unfold atomicSet
+        simp only [hp]
+        rfl
+      simp only [↓reduceIte, hl, Option.isSome_none, Bool.and_false, Bool.false_eq_true]
+      rw [hsame]
+      simpa [hl] using hplain
+    | some o =>
+      rw [hp] at hvl
+      have hl : s.live k = some (absN o) := by simpa using hvl.symm
+      have ho : ∃ o', lookup t k = some o' ∧ o' = o := by
+        unfold visiblePrev at hp
+        cases hl2 : lookup t k with
+        | none => rw [hl2] at hp; cases hp
+        | some o' =>
+          rw [hl2] at hp
+          by_cases hx : hasExpired o' s.now = true
+          · simp [hx] at hp
+          · simp only [hx, Bool.false_eq_true, ↓reduceIte, Option.some.injEq] at hp
+            exact ⟨o', rfl, hp⟩
+      obtain ⟨o', hlo, hoo⟩ := ho
+      subst hoo
+      have hok := hwf o' hlo
+      have hvis : s.now < o'.exp := by
+        unfold visiblePrev at hp; rw [hlo] at hp
+        by_cases hx : hasExpired o' s.now = true
+        · simp [hx] at hp
+        · unfold hasExpired at hx; simp at hx; exact hx
+      have hE := exp_refines c k v (some o') s.now hnow (by intro x hx; cases hx; exact ⟨hvis, hok.2.1⟩) hk1
+      have hR := ref_refines_reload c k v (calcExpiresAtAfterWrite (cfgOf c) (newNode (cfgOf c) k v (some o')) (some o') s.now)
+        o' s.now hnow ⟨(calcExp_fields _ _ _ _).1, (calcExp_fields _ _ _ _).2.2.2⟩ ⟨hok.2.2.1, hok.2.2.2⟩ hk2
+      have hunf : (atomicSet (cfgOf c) k v (lookup t k) s.now .reload).1 =
+          calcRefreshableAt (cfgOf c) (calcExpiresAtAfterWrite (cfgOf c) (newNode (cfgOf c) k v (some o')) (some o') s.now) (some o') .reload s.now := by
+        unfold atomicSet
+        simp only [hp]
+      simp only [↓reduceIte, hl, Option.isSome_some, Bool.and_self]
+      rw [hunf]
+      unfold absN
+      rw [(calcRef_fields _ _ _ _ _).2.1, (calcRef_fields _ _ _ _ _).2.2.1, (calcRef_fields _ _ _ _ _).2.2.2,
+        (calcExp_fields _ _ _ _).2.1, (calcExp_fields _ _ _ _).2.2.1, hE, hR]
+      rfl
+
+/-- the failed-refresh branch of finishCall is calcRefreshableAt on the node itself -/
+theorem failure_is_calcRefreshableAt (c : TCfg) (x : TNode) (now : Int) :
+    calcRefreshableAt c x (some x) .failure now =
+      (if c.withRef && (decide (c.refFail x.key x.val (durationTo x.ref now) > 0) && durationTo x.ref now != c.refFail x.key x.val (durationTo x.ref now))
+       then { x with ref := deadlineAfter now (c.refFail x.key x.val (durationTo x.ref now)) } else x) := by
+  unfold calcRefreshableAt
+  cases c.withRef <;> simp
+
+theorem find_put_other (m : List (Nat × Entry)) (k j : Nat) (e : Entry) (h : j ≠ k) :
+    Spec.find (Spec.put m k e) j = Spec.find m j := by
+  unfold Spec.find Spec.put Spec.erase
+  have hkj : (k == j) = false := by simp [Ne.symm h]
+  simp only [List.find?_cons, hkj]
+  congr 1
+  induction m with
+  | nil => rfl
+  | cons p rest ih =>
+    simp only [List.filter_cons, List.find?_cons]
+    by_cases hp : p.1 = k
+    · have h1 : (p.1 != k) = false := by simp [hp]
+      have h2 : (p.1 == j) = false := by simp [hp, Ne.symm h]
+      simp only [h1, h2, Bool.false_eq_true, ↓reduceIte]
+      exact ih
+    · have h1 : (p.1 != k) = true := by simp [hp]
+      simp only [h1, ↓reduceIte, List.find?_cons]
+      cases (p.1 == j) <;> simp [ih]
+
+/-- two association lists denote the same map -/
+def MapEq (a b : List (Nat × Entry)) : Prop := ∀ j, Spec.find a j = Spec.find b j
+
+theorem MapEq.of_eq {a b : List (Nat × Entry)} (h : a = b) : MapEq a b := fun _ => by rw [h]
+
+/-- **completion of a load**: installation only by a correct call and with the reload calculators for a refresh, removal
+    on not-found, the refresh deadline of a failed refresh — table (as a map) and events are the spec's `finishCall` -/
+theorem finishCall_refines (c : Cfg) (s : Spec.State) (t : Tbl) (k cid : Nat) (isRefresh fake : Bool) (hs : s.m = absT t)
+    (hnow : -4611686018427387904 < s.now ∧ s.now < 4611686018427387904)
+    (hwf : ∀ o, lookup t k = some o → NodeOk k o) (hk1 : KindOk c.expiry) (hk2 : KindOk c.refresh) :
+    let correct := fake || s.inflightOf k == some cid
+    (∀ v, MapEq (absT (finishCall (cfgOf c) t k correct isRefresh (.ok v) s.now).1) (Spec.finishCall c s k cid isRefresh fake (.ok v)).1.m ∧
+          (finishCall (cfgOf c) t k correct isRefresh (.ok v) s.now).2 = (Spec.finishCall c s k cid isRefresh fake (.ok v)).2) ∧
+    (∀ v, MapEq (absT (finishCall (cfgOf c) t k correct isRefresh .notFound s.now).1) (Spec.finishCall c s k cid isRefresh fake (.notFound v)).1.m ∧
+          (finishCall (cfgOf c) t k correct isRefresh .notFound s.now).2 = (Spec.finishCall c s k cid isRefresh fake (.notFound v)).2) ∧
+    (∀ v, MapEq (absT (finishCall (cfgOf c) t k correct isRefresh .err s.now).1) (Spec.finishCall c s k cid isRefresh fake (.err v)).1.m ∧
+          (finishCall (cfgOf c) t k correct isRefresh .err s.now).2 = (Spec.finishCall c s k cid isRefresh fake (.err v)).2) := by
+  intro correct
+  -- the state the spec continues with differs from s only in the in-flight table
+  let s2 : Spec.State := if s.inflightOf k == some cid then s.clearInflight k else s
+  have hs2m : s2.m = absT t := by show (if _ then _ else _ : Spec.State).m = _; split <;> exact hs
+  have hs2n : s2.now = s.now := by show (if _ then _ else _ : Spec.State).now = _; split <;> rfl
+  have hnow2 : -4611686018427387904 < s2.now ∧ s2.now < 4611686018427387904 := by rw [hs2n]; exact hnow
+  refine ⟨?_, ?_, ?_⟩
+  · intro v
+    have hspec : Spec.finishCall c s k cid isRefresh fake (.ok v) =
+        (if correct then Spec.write c s2 k v (if isRefresh && (s2.live k).isSome then .reload else .normal) else (s2, [])) := rfl
+    rw [hspec]
+    unfold finishCall
+    cases hc : correct with
+    | false => simp only [Bool.false_eq_true, ↓reduceIte]; exact ⟨MapEq.of_eq hs2m.symm, by first | rfl | trivial⟩
+    | true =>
+      simp only [↓reduceIte]
+      have hentry := atomicSet_entry_call c s2 t k v isRefresh hs2m hnow2 hwf hk1 hk2
+      have hphys := phys_abs s2 t k hs2m
+      rw [hs2n] at hentry
+      refine ⟨MapEq.of_eq ?_, ?_⟩
+      · show absT (store t k (atomicSet (cfgOf c) k v (lookup t k) s.now (if isRefresh then .reload else .plain)).1) = Spec.put s2.m k _
+        rw [← put_absT, hentry, hs2m, hs2n]
+      · show (atomicSet (cfgOf c) k v (lookup t k) s.now (if isRefresh then .reload else .plain)).2 = _
+        unfold Spec.write
+        simp only [hphys]
+        cases hl : lookup t k with
+        | none => simp [atomicSet]
+        | some o => simp only [atomicSet, Option.map_some, (hwf o hl).1, cause_eq, hs2n]; rfl
+  · intro v
+    have hspec : Spec.finishCall c s k cid isRefresh fake (.notFound v) =
+        (if correct then Spec.remove s2 k .invalidation else (s2, [])) := rfl
+    rw [hspec]
+    unfold finishCall
+    cases hc : correct with
+    | false => simp only [Bool.false_eq_true, ↓reduceIte]; exact ⟨MapEq.of_eq hs2m.symm, by first | rfl | trivial⟩
+    | true =>
+      simp only [↓reduceIte]
+      have hphys := phys_abs s2 t k hs2m
+      unfold Spec.remove
+      simp only [hphys]
+      cases hl : lookup t k with
+      | none => simp only [Option.map_none]; exact ⟨MapEq.of_eq hs2m.symm, by first | rfl | trivial⟩
+      | some o =>
+        simp only [Option.map_some]
+        refine ⟨MapEq.of_eq ?_, ?_⟩
+        · show absT (unlink t k) = Spec.erase s2.m k
+          rw [hs2m, erase_absT]
+        · simp only [(hwf o hl).1, cause_eq, hs2n]; rfl
+  · intro v
+    have hspec : Spec.finishCall c s k cid isRefresh fake (.err v) =
+        (if isRefresh then Spec.applyReloadFailure c s2 k else s2, []) := rfl
+    rw [hspec]
+    unfold finishCall
+    have hphys := phys_abs s2 t k hs2m
+    cases hl : lookup t k with
+    | none =>
+      rw [hl] at hphys
+      simp only [Option.map_none] at hphys
+      refine ⟨?_, by first | rfl | trivial⟩
+      cases isRefresh
+      · exact MapEq.of_eq hs2m.symm
+      · simp only [↓reduceIte, Spec.applyReloadFailure, hphys]; exact MapEq.of_eq hs2m.symm
+    | some x =>
+      rw [hl] at hphys
+      simp only [Option.map_some] at hphys
+      obtain ⟨hkey, _, hlow, hmax⟩ := hwf x hl
+      cases isRefresh with
+      | false => simp only [Bool.false_and, Bool.false_eq_true, ↓reduceIte]; exact ⟨MapEq.of_eq hs2m.symm, by first | rfl | trivial⟩
+      | true =>
+        simp only [Bool.true_and, ↓reduceIte, Spec.applyReloadFailure, hphys, Spec.refFailDur]
+        obtain ⟨e, he⟩ : ∃ e, c.refresh = e := ⟨_, rfl⟩
+        simp only [cfgOf, Cfg.withRefresh, he, hkey]
+        cases e with
+        | none => simp; exact MapEq.of_eq hs2m.symm
+        | creating d | writing d | accessing d => simp; exact MapEq.of_eq hs2m.symm
+        | custom =>
+          simp only [bne_iff_ne, ne_eq, reduceCtorEq, not_false_eq_true, decide_true, ↓reduceIte]
+          by_cases hd : c.refFail.get k > 0
+          · by_cases hcur : durationTo x.ref s.now = c.refFail.get k
+            · -- the calculator answered with the current duration: nothing is stored; the spec re-puts the same entry
+              have hkeep := keep_or_set x.ref s.now _ hnow hmax hd hlow hcur
+              simp only [hd, decide_true, hcur, bne_self_eq_false, Bool.and_false, Bool.false_eq_true, ↓reduceIte, hs2n]
+              refine ⟨?_, by first | rfl | trivial⟩
+              intro j
+              by_cases hj : j = k
+              · subst hj
+                rw [find_put, ← hs2m]
+                have : s2.phys j = some (absN x) := hphys
+                unfold Spec.State.phys at this
+                rw [this, ← hkeep]
+                rfl
+              · rw [find_put_other _ _ _ _ hj, hs2m]
+            · have hb : (durationTo x.ref s.now != c.refFail.get k) = true := by simpa using hcur
+              simp only [hd, decide_true, hb, Bool.and_self, ↓reduceIte, hs2n]
+              refine ⟨MapEq.of_eq ?_, by first | rfl | trivial⟩
+              rw [← put_absT, hs2m, deadlineAfter_eq_satAdd]
+              rfl
+          · have hd' : ¬ (0 < c.refFail.get k) := hd
+            simp only [hd, decide_false, Bool.false_and, Bool.false_eq_true, ↓reduceIte]
+            exact ⟨MapEq.of_eq hs2m.symm, by first | rfl | trivial⟩
 
 end OtterVerif.Proofs.TableRefine
